@@ -568,6 +568,26 @@ func requestKeys(q *Request, v string) []string {
 	return ks
 }
 
+// a different variable over the same underlying data (ARGS vs ARGS_GET vs ARGS_NAMES ...)
+func sibling(r *rand.Rand, v string) string {
+	var fam []string
+	switch {
+	case strings.HasPrefix(v, "ARGS") && v != "ARGS_COMBINED_SIZE":
+		fam = []string{"ARGS", "ARGS_GET", "ARGS_POST", "ARGS_NAMES", "ARGS_GET_NAMES", "ARGS_POST_NAMES"}
+	case strings.HasPrefix(v, "REQUEST_HEADERS"):
+		fam = []string{"REQUEST_HEADERS", "REQUEST_HEADERS_NAMES"}
+	case strings.HasPrefix(v, "REQUEST_COOKIES"):
+		fam = []string{"REQUEST_COOKIES", "REQUEST_COOKIES_NAMES"}
+	default:
+		return v
+	}
+	for {
+		if w := pick(r, fam); w != v {
+			return w
+		}
+	}
+}
+
 func flipCase(r *rand.Rand, k string) string {
 	switch r.Intn(4) {
 	case 0:
@@ -748,8 +768,11 @@ func genLink(r *rand.Rand, prev *Link, q *Request) Link {
 		nn := []int{0, 0, 1, 1, 2, 3}[r.Intn(6)]
 		for i := 0; i < nn; i++ {
 			v := vars[r.Intn(len(vars))]
-			if r.Intn(8) == 0 {
+			switch r.Intn(8) {
+			case 0:
 				v = pick(r, keyedVars)
+			case 1, 2:
+				v = sibling(r, v) // an exclusion on a related variable must NOT apply
 			}
 			it := Item{Neg: true, Var: v, Sel: genSel(r, v, true, q)}
 			// mostly after the positive items; sometimes in between (applies to earlier targets only)
@@ -805,6 +828,40 @@ func genRules(r *rand.Rand, q *Request) []Rule {
 			}
 		}
 		rules = append(rules, ru)
+	}
+	return rules
+}
+
+// selection-focused rule sets: single links with @unconditionalMatch, so that the match data IS the
+// selection (GetField): positive targets over present keys, exclusions on the same and on sibling
+// variables, counts
+func genSelectionRules(r *rand.Rand, q *Request) []Rule {
+	var rules []Rule
+	for id := 1; id <= 4; id++ {
+		l := Link{Op: "unconditionalMatch"}
+		if r.Intn(4) == 0 {
+			l.Op, l.Neg = "noMatch", true
+		}
+		v := pick(r, keyedVars[:10])
+		l.Items = append(l.Items, Item{Var: v, Count: r.Intn(6) == 0, Sel: genSel(r, v, false, q)})
+		if r.Intn(3) == 0 {
+			w := sibling(r, v)
+			l.Items = append(l.Items, Item{Var: w, Sel: genSel(r, w, false, q)})
+		}
+		for k := r.Intn(3); k > 0; k-- {
+			w := v
+			if r.Intn(2) == 0 {
+				w = sibling(r, v)
+			}
+			l.Items = append(l.Items, Item{Neg: true, Var: w, Sel: genSel(r, w, true, q)})
+		}
+		ph := 1 + r.Intn(2)
+		for _, it := range l.Items {
+			if strings.HasPrefix(it.Var, "ARGS_POST") || (it.Var == "ARGS" && r.Intn(2) == 0) || (it.Var == "ARGS_NAMES" && r.Intn(2) == 0) {
+				ph = 2
+			}
+		}
+		rules = append(rules, Rule{ID: id, Phase: ph, Links: []Link{l}})
 	}
 	return rules
 }
@@ -1114,9 +1171,11 @@ func Run(cfg vh.Config) (*vh.Result, error) {
 			rn.addRx(&RxPat{Class: "nondigits"}, k)
 			rn.addRx(&RxPat{Class: "digits"}, k)
 		}
-		opVals := append([]string{"+1", "-0", "007", " 1", "1 ", "9223372036854775807", "9223372036854775808", "-9223372036854775808", "-9223372036854775809", "99999999999999999999", "+", "-", "1_0", "0x10", "xa", "ax", "axb"}, valAlpha...)
+		opVals := append([]string{"+1", "-0", "007", " 1", "1 ", "9223372036854775807", "9223372036854775808", "-9223372036854775808", "-9223372036854775809", "99999999999999999999", "+", "-", "1_0", "0x10", "xa", "ax", "axb",
+			"99999999999999999999x", "18446744073709551615x", "18446744073709551616x", "18446744073709551615", "18446744073709551616", "-99999999999999999999x",
+			"1844674407370955161x", "253246253545612532463d2532353431", "x99999999999999999999", "-18446744073709551616y", "+18446744073709551616y"}, valAlpha...)
 		for _, o := range opNames {
-			for _, a := range append([]string{"9223372036854775807", "-1", "+1"}, argAlpha...) {
+			for _, a := range append([]string{"9223372036854775807", "-1", "+1", "253246253545612532463d2532353431", "-9223372036854775808"}, argAlpha...) {
 				if (o == "unconditionalMatch" || o == "noMatch") && a != "" {
 					continue
 				}
@@ -1128,10 +1187,15 @@ func Run(cfg vh.Config) (*vh.Result, error) {
 			}
 		}
 
-		n := cfg.Pick(900, 24000)
+		n := cfg.Pick(800, 10000)
 		for i := 0; i < n; i++ {
 			q := genRequest(rng)
 			rn.addTx(genRules(rng, q), q, "")
+		}
+		for i := 0; i < cfg.Pick(300, 3000); i++ {
+			q := genRequest(rng)
+			rn.addTx(genSelectionRules(rng, q), q, "")
+			res.InputDistribution["selection_focused"]++
 		}
 		if cfg.Thorough() {
 			rn.exhaustive()
